@@ -32,6 +32,7 @@ pub fn run(pid: &str, c: &Case) {
         "C05" => c05(c),
         "C03" => c03(c),
         "C09" => c09(c),
+        "C01" => crate::ikprops::c01(c),
         "C16" => c16(c),
         _ => { println!("reproduced=false"); println!("error=unknown property {}", pid); }
     }
@@ -111,7 +112,7 @@ fn c05(c: &Case) {
     println!("oracle={}", want); println!("reproduced={}", want != got);
 }
 
-fn iso_diff(a: &Iso, b: &Iso) -> (f64, f64) { (dist(&a.t, &b.t), rot_angle(&a.r, &b.r).abs()) }
+pub fn iso_diff(a: &Iso, b: &Iso) -> (f64, f64) { (dist(&a.t, &b.t), rot_angle(&a.r, &b.r).abs()) }
 
 /// C03: params/off/sign/joints -> real forward and forward_with_joint_poses vs the independent chain.
 /// Reproduced when any pose differs by more than 1e-7 (relative to the robot size) or a rotation is not proper.
